@@ -47,13 +47,14 @@ CONSTANTS
   \* --- historical defects (deviation switches) ---
   ParserContinuesAfterShortRange,  \* before 24aadb9: later ranges parsed after an earlier one stopped short
   Budget0PlansNothing,             \* before 678dd66: budget 0 plans no sealed range
-  TailInitPersistsZero             \* before a3c434e/e1ac9b7: every tail poll persists (TAIL|id, 0)
+  TailInitPersistsZero             \* before a3c434e/e1ac9b7: every tail poll persists offset 0 of the active block
 
 VARIABLES
   chain,    \* [t -> Seq(block)]        sealed blocks published to the reader, in order
   wr,       \* [t -> block]             the writer's active block (id = 0: no writer yet); used = written offset
   rd,       \* [t -> [ci,co,tb,to,rsp,hy]] ColReaderInfo
-  ix,       \* [t -> <<>> | <<0,idx,off>> | <<1,id,off>>]  persisted read_offset_idx entry
+  ix,       \* [t -> <<>> | <<0,idx,off>> | <<1,id,off>>]  persisted read_offset_idx entry (<<1,..>> = the
+            \*       TAIL_FLAG|id form: still understood by the readers, no longer written since ad9d0d0)
   cnt,      \* [t -> Nat]               topic_entry_counts
   al,       \* [id, f, u]               allocator: next block id, current file, next unit in it
   nops, nre,
@@ -296,10 +297,12 @@ ReadNextOutcome(t, ck) ==
   IF wr[t].id = 0 THEN [r |-> ra, ix |-> ix[t], dec |-> 0, rs |-> <<>>, lab |-> "rn_nowriter" \o advl, bad |-> FALSE]
   ELSE
   LET w       == wr[t]
-      already == ix[t] # <<>> /\ ix[t][1] = 1 /\ ix[t][2] = w.id
+      \* a position in the active block is persisted as (number of sealed blocks, offset) since ad9d0d0
+      tpos    == Len(chain[t])
+      already == ix[t] # <<>> /\ ix[t][1] = 0 /\ ix[t][2] = tpos
       doInit  == ck /\ (TailInitPersistsZero \/ ~already)
       rspA    == IF doInit /\ Alo THEN 0 ELSE r0.rsp
-      ixA     == IF doInit THEN <<1, w.id, 0>> ELSE ix[t]
+      ixA     == IF doInit THEN <<0, tpos, 0>> ELSE ix[t]
       toff    == IF r0.tb = w.id THEN r0.to ELSE 0
       initl   == IF doInit THEN "_init" ELSE ""
   IN IF toff < w.used
@@ -307,7 +310,7 @@ ReadNextOutcome(t, ck) ==
           IF i <= 0 THEN [r |-> ra, ix |-> ixA, dec |-> 0, rs |-> <<>>, lab |-> "rn_bad", bad |-> TRUE]
           ELSE LET e == w.es[i]  noff == toff + ESize(e)  sp == ShouldPersist(rspA) IN
                IF ck THEN [r |-> [ra EXCEPT !.tb = w.id, !.to = noff, !.rsp = sp.rsp],
-                           ix |-> IF sp.p THEN <<1, w.id, noff>> ELSE ixA,
+                           ix |-> IF sp.p THEN <<0, tpos, noff>> ELSE ixA,
                            dec |-> 1, rs |-> <<e>>, lab |-> "rn_tail" \o initl \o advl, bad |-> FALSE]
                      ELSE [r |-> ra, ix |-> ixA, dec |-> 0, rs |-> <<e>>, lab |-> "rn_tail_peek" \o advl, bad |-> FALSE]
      ELSE [r |-> [ra EXCEPT !.rsp = rspA], ix |-> ixA, dec |-> 0, rs |-> <<>>,
@@ -390,7 +393,7 @@ BatchReadOutcome(t, b, ck) ==
   LET rsp1 == IF ~Alo THEN r0.rsp ELSE IF r0.rsp + n >= Every THEN 0 ELSE r0.rsp + n IN
   IF ps.saw
   THEN [r |-> [r0 EXCEPT !.ci = Len(ch), !.co = 0, !.tb = ps.ftb, !.to = ps.fto, !.rsp = rsp1],
-        ix |-> IF Alo THEN ix[t] ELSE <<1, ps.ftb, ps.fto>>,
+        ix |-> IF Alo THEN ix[t] ELSE <<0, Len(ch), ps.fto>>,
         dec |-> n, rs |-> ps.out, lab |-> lab, bad |-> FALSE]
   ELSE [r |-> [r0 EXCEPT !.ci = ps.fi, !.co = ps.fo, !.rsp = rsp1],
         ix |-> IF Alo THEN ix[t] ELSE <<0, ps.fi, ps.fo>>,
@@ -556,14 +559,6 @@ DurablePos(t) ==
 InvDurable == \A t \in Topics :
   IF Strict(t) THEN DurablePos(t) = cur[t]
   ELSE DurablePos(t) >= lb[t] /\ DurablePos(t) <= cur[t]
-
-(* The recovery scan would give every written block the id it has now. FALSE = the trigger of   *)
-(* known finding KF-ENG-EMPTY-INITIAL-BLOCK (an allocated but empty block at the end of a file, *)
-(* followed by blocks in later files): used as avoidance guard (CONSTRAINT).                    *)
-IdsStable ==
-  LET rec == Recovered IN
-  \A x \in DiskSet : \E k \in 1 .. Len(rec.ch[x.t]) :
-         rec.ch[x.t][k].f = x.b.f /\ rec.ch[x.t][k].u = x.b.u /\ rec.ch[x.t][k].id = x.b.id
 
 TypeOKD ==
   /\ \A t \in Topics : rd[t].ci \in 0 .. Len(chain[t]) /\ cnt[t] \in Nat
